@@ -102,7 +102,8 @@ def check(prog, rep, tier):
                       'bogus length announces)')
     rep.rule('R10.g', 'a well-framed message whose decoder raises is still consumed (it must not change how the '
                       'messages after it are decoded)')
-    rep.rule('R10.f', 'no endless loop in the OPEN decoder (loop progress, as C11 R11.a; UPDATE decoders are C11)')
+    rep.rule('R10.f', 'no endless loop in the OPEN decoder and in the NLRI decoders (loop progress, as C11 R11.a; the attribute and '
+                      'TLV decoders are C11)')
     rep.assumptions += ['resource exhaustion other than non-termination (C11) is not decided',
                         'struct.unpack on truncated data and the opaque Update.parse/construct are modelled as '
                         'possibly raising; other library calls are assumed not to raise']
@@ -351,7 +352,8 @@ def check(prog, rep, tier):
     # ---------------------------------------------------------------- R10.f
     from . import c11
     for f2 in prog.all_functions():
-        if f2.module.name != 'yabgp.message.open':
+        # the OPEN decoder and the NLRI decoders an UPDATE reaches (the attribute / TLV decoders are C11's)
+        if f2.module.name != 'yabgp.message.open' and not f2.module.name.startswith('yabgp.message.attribute.nlri'):
             continue
         ws = [n for n in ast.walk(f2.node) if isinstance(n, ast.While)]
         if not ws:
